@@ -144,3 +144,69 @@ func TestC13Backlog(t *testing.T) {
 		ev.Case(true, evid.Hash("backlog", n, cfg.Prefix), "backlog")
 	})
 }
+
+// TestC13ConcurrentFlush: after a burst of mutations with a slow Key function several
+// goroutines call Flush at the same time and query as soon as their own Flush has
+// returned; each of them is entitled to the exact result.
+func TestC13ConcurrentFlush(t *testing.T) {
+	ev := evid.For("C13")
+	rapid.Check(t, func(rt *rapid.T) {
+		cfg := Cfg{Prefix: rapid.SampledFrom([]string{"", "pfx"}).Draw(rt, "prefix"), Indexes: []string{"ia", "ib"}, SlowKey: rapid.SampledFrom([]int{1, 2, 2}).Draw(rt, "slow")}
+		n := rapid.IntRange(5, 60).Draw(rt, "burst")
+		readers := rapid.IntRange(2, 6).Draw(rt, "readers")
+		m, err := newMachine(cfg)
+		if err != nil {
+			rt.Fatalf("VERIF-INCONCLUSIVE: %v", err)
+		}
+		defer m.cleanup()
+		model := map[string]Rec{}
+		for i := 0; i < n; i++ {
+			op := Op{ID: rapid.SampledFrom(idAlpha).Draw(rt, "id"), A: rapid.SampledFrom(fieldAlpha).Draw(rt, "a"), B: rapid.SampledFrom(fieldAlpha).Draw(rt, "b")}
+			_, exists := model[op.ID]
+			switch {
+			case !exists:
+				op.K = "create"
+			case rapid.IntRange(0, 5).Draw(rt, "del") == 0:
+				op.K = "delete"
+			default:
+				op.K = "update"
+			}
+			if err := m.mutate(op); err != nil {
+				rt.Fatalf("mutation %d %+v failed: %v", i, op, err)
+			}
+			if op.K == "delete" {
+				delete(model, op.ID)
+			} else {
+				model[op.ID] = Rec{A: op.A, B: op.B}
+			}
+		}
+		var qs []Query
+		for i := 0; i < readers; i++ {
+			qs = append(qs, genQuery(cfg.Indexes).Draw(rt, "q"))
+		}
+		msgs := make([]string, readers)
+		var wg sync.WaitGroup
+		start := make(chan struct{})
+		for i := 0; i < readers; i++ {
+			wg.Add(1)
+			go func(i int) {
+				defer wg.Done()
+				<-start
+				m.qs.Flush()
+				got, err := m.query(qs[i])
+				want := refQuery(model, qs[i])
+				if err != nil || !sameIDs(got, want) {
+					msgs[i] = fmt.Sprintf("reader %d of %d: after its own Flush returned, query %+v returned %q (%v), the scan of the store gives %q (store: %s)", i, readers, qs[i], got, err, want, describeModel(model))
+				}
+			}(i)
+		}
+		close(start)
+		wg.Wait()
+		for _, msg := range msgs {
+			if msg != "" {
+				rt.Fatalf("%s", msg)
+			}
+		}
+		ev.Case(len(model) > 0, evid.Hash("concflush", n, readers, fmt.Sprint(cfg), fmt.Sprint(qs)), "concurrent-flush")
+	})
+}
